@@ -269,7 +269,7 @@ class VEngine(Engine):
         for k, v in post.env.items():
             if k.startswith("#ver:"):
                 pk = k[5:]
-                if pk.startswith("$"):
+                if pk.startswith("$") or not is_heap(pk):
                     continue
                 if not any(pk == d or pk.startswith(p) for p in prefixes for d in [p]) and pk not in declared:
                     changed.append((k, None))
